@@ -401,6 +401,7 @@ class Emitter:
         s.icalls = collections.OrderedDict()
         s.intr = collections.OrderedDict()
         s.typeids = {}
+        s.icall_hooks = []
 
     # ---- types
     def ctype(s, t, decl=''):
@@ -593,6 +594,10 @@ class Emitter:
                 call = '%s(%s)' % (san(fn), ', '.join('(%s)a%d' % (em.ctype(pt), i) for i, (pt, pn, info) in enumerate(f.params)))
                 if rt.k == 'void': lines.append('  if (p == (void *)%s) { %s; return; }' % (san(fn), call))
                 else: lines.append('  if (p == (void *)%s) return (%s)%s;' % (san(fn), em.ctype(rt), call))
+            def kd(t): return 'p' if t.k == 'ptr' else ('v' if t.k == 'void' else (tstr(t) if t.k == 'int' else 's'))
+            hook = 'CV_ICALL_EXTRA_%s_%s' % (kd(rt), ''.join(kd(t) for t in ats) or 'v')
+            em.icall_hooks.append(hook)
+            lines.append('  %s(p%s)  /* hook: a spec may add stub callees (default: nothing) */' % (hook, ''.join(', a%d' % i for i in range(len(ats)))))
             lines.append('  __CPROVER_assert(0, "indirect call: callee not among address-taken functions");')
             lines.append('  __CPROVER_assume(0);')
             lines.append('}')
@@ -1373,6 +1378,8 @@ def translate(ll_path, roots_rx, boundary_rx, out_prefix, names=None, no_names=F
                 body.append('%s %s(%s a, %s b) { %s r; cv_i128 x = (cv_i128)a %s (cv_i128)b; r.f0 = (%s)x; r.f1 = (x >> %d) != 0; return r; }' % (rt, fnm, it, it, rt, c, it, bits))
             else:
                 body.append('%s %s(%s a, %s b) { %s r; __int128 x = (__int128)(cv_s%d)a %s (__int128)(cv_s%d)b; r.f0 = (%s)x; r.f1 = x != (__int128)(cv_s%d)(%s)x; return r; }' % (rt, fnm, it, it, rt, bits, c, bits, it, bits, it))
+    for hk in em.icall_hooks:
+        body.append('#ifndef %s\n#define %s(...)\n#endif' % (hk, hk))
     body += [src for _, src in em.out_funcs] + disp
     open(out_prefix + '_decl.h', 'w').write('\n'.join(decl) + '\n')
     open(out_prefix + '_body.c', 'w').write('\n\n'.join(body) + '\n')
